@@ -43,7 +43,7 @@ LEVEL_NOTE = "Trusted: SHA-1 digests of array bytes+dtype+shape+flags; scikit-le
 TECHNIQUE = "runtime purity monitor (argument digests before/after every tapped call) plus recorded call histories checked offline (repeat, read-only, refit-vs-fresh, clone, rejection with paired control)"
 FLOORS = {
     "quick": {"eval:purity": 25000, "eval:repeat": 150, "eval:readonly": 150, "eval:history": 38, "eval:clone": 28, "eval:unfitted": 19,
-              "eval:rejection": 420, "eval:aliasing": 25, "eval:stale_state": 130, "distinct_nontrivial": 5000},
+              "eval:rejection": 420, "eval:aliasing": 25, "eval:stale_state": 130, "eval:result_ownership": 100, "distinct_nontrivial": 5000},
     "thorough": {"eval:purity": 600000, "eval:repeat": 3800, "eval:readonly": 3800, "eval:history": 1100, "eval:clone": 750, "eval:rejection": 10000,
                  "eval:aliasing": 750, "distinct_nontrivial": 100000},
 }
@@ -71,7 +71,12 @@ def _strip(obj, depth=0):
             return type(obj).__name__
         if type(obj).__name__ == "VectorSpline2D":
             params = {k: v for k, v in params.items() if k != "force_coords"}
-        return ("estimator", type(obj).__name__, {k: _strip(v, depth + 1) for k, v in params.items()})
+        # instance attributes that are neither constructor parameters nor fitted attributes (trailing underscore): a method that
+        # leaves something here (e.g. overrides a class-level default on the instance) changes how later calls behave
+        extra = {k: v for k, v in getattr(obj, "__dict__", {}).items()
+                 if not k.endswith("_") and not k.startswith("_") and k not in params and k != "force_coords"}
+        return ("estimator", type(obj).__name__, {k: _strip(v, depth + 1) for k, v in params.items()},
+                {k: _strip(v, depth + 1) for k, v in extra.items()})
     if isinstance(obj, tuple):
         return tuple(_strip(v, depth + 1) for v in obj)
     if isinstance(obj, list):
@@ -190,6 +195,44 @@ def _outcome(call, args):
         return "raised:" + type(exc).__name__
 
 
+def _scribble_on_result(result, args):
+    """Overwrite (in place) every writable float/int ndarray in result that does not share memory with an argument array."""
+    import pandas as pd
+
+    arg_arrays = []
+
+    def collect(obj, depth=0):
+        if isinstance(obj, np.ndarray):
+            arg_arrays.append(obj)
+        elif isinstance(obj, (pd.Series, pd.DataFrame)):
+            return
+        elif type(obj).__name__ in ("DataArray", "Dataset"):
+            for var in getattr(obj, "variables", {}).values():
+                arg_arrays.append(np.asarray(var.values))
+        elif depth < 5 and isinstance(obj, (tuple, list)):
+            for item in obj:
+                collect(item, depth + 1)
+        elif depth < 5 and isinstance(obj, dict):
+            for item in obj.values():
+                collect(item, depth + 1)
+
+    collect(args)
+    count = 0
+
+    def walk(obj, depth=0):
+        nonlocal count
+        if isinstance(obj, np.ndarray) and obj.size and obj.flags.writeable and obj.dtype.kind in "fiu":
+            if not any(np.shares_memory(obj, a) for a in arg_arrays if a.size):
+                obj[...] = obj * 0 + 12345
+                count += 1
+        elif depth < 5 and isinstance(obj, (tuple, list)):
+            for item in obj:
+                walk(item, depth + 1)
+
+    walk(result)
+    return count
+
+
 def _reverse_in_place(args):
     """Reverse (in C order) every ndarray with more than one element under the data-like keys; returns how many changed."""
     count = 0
@@ -256,6 +299,19 @@ def _estimators(vd, rng, scalar=True):
     ]
 
 
+def _strip_repr(obj):
+    """Datasets carry the repr of the generating estimator as metadata; two equal-behaving estimators may print differently (force_coords)."""
+    if isinstance(obj, tuple):
+        return tuple(_strip_repr(o) for o in obj)
+    if type(obj).__name__ == "Dataset":
+        out = obj.copy()
+        out.attrs = {}
+        for name in out.variables:
+            out[name].attrs = {}
+        return out
+    return obj
+
+
 def _pred_digest(est, query):
     return core.digest(est.predict(query))
 
@@ -300,6 +356,7 @@ def _specs(vd, rng):
     yield "pad_region", lambda a: vd.pad_region(a["region"], a["pad"]), {"region": np.array(region), "pad": np.array([1.0, 2.0])}
     yield "block_split", lambda a: vd.block_split(a["c"], spacing=sp), {"c": (east, north)}
     yield "rolling_window", lambda a: vd.rolling_window(a["c"], size=span / 2, spacing=span / 4), {"c": (east, north)}
+    yield "rolling_window_region", lambda a: vd.rolling_window(a["c"], size=span / 2, spacing=span / 4, region=a["region"]), {"c": (east, north), "region": np.array(region)}
     yield "expanding_window", lambda a: vd.expanding_window(a["c"], center=a["center"], sizes=a["sizes"]), {"c": (east, north), "center": np.array([east.mean(), north.mean()]), "sizes": np.array([span / 4, span / 2])}
     yield "longitude_continuity", lambda a: vd.longitude_continuity(a["c"], a["region"]), {"c": [np.array([350.0, 5.0, 10.0, -170.0, 360.0]), np.array([-5.0, 0.0, 5.0, 1.0, 2.0])], "region": np.array([340.0, 20.0, -10.0, 10.0])}
     yield "longitude_continuity_360", lambda a: vd.longitude_continuity(a["c"], a["region"]), {"c": [np.array([-170.0, 200.0, 360.0, 185.0]), np.array([-5.0, 0.0, 5.0, 1.0])], "region": np.array([150.0, 250.0, -10.0, 10.0])}
@@ -336,6 +393,7 @@ def _specs(vd, rng):
         yield name + ".fit_predict", (lambda f: lambda a: f().fit(a["c"], a["d"], a["w"]).predict(a["q"]))(factory), {"c": (east, north), "d": data, "w": weights, "q": query}
         yield name + ".filter", (lambda f: lambda a: f().filter(a["c"], a["d"], a["w"]))(factory), {"c": (east, north), "d": data, "w": weights}
         yield name + ".grid", (lambda f: lambda a: f().fit(a["c"], a["d"]).grid(shape=(4, 5), extra_coords=a["x"]))(factory), {"c": (east, north), "d": data, "x": np.array([7.0])}
+        yield name + ".named_outputs", (lambda f: lambda a: _named_outputs(f().fit(a["c"], a["d"]), a, seed))(factory), {"c": (east, north), "d": data, "p1": np.array(region[::2]), "p2": np.array(region[1::2])}
         yield name + ".grid_coordinates", (lambda f: lambda a: f().fit(a["c"], a["d"]).grid(coordinates=a["g"]))(factory), {"c": (east, north), "d": data, "g": (ge, gn)}
         yield name + ".profile_scatter_score", (lambda f: lambda a: _profile_scatter_score(f().fit(a["c"], a["d"], a["w"]), a, seed))(factory), {"c": (east, north), "d": data, "w": weights, "p1": np.array(region[::2]), "p2": np.array(region[1::2])}
     vq = _query(rng, vcoords)
@@ -353,6 +411,16 @@ def verde_ls(vd):
     import verde.base
 
     return verde.base.least_squares
+
+
+def _named_outputs(est, a, seed):
+    """Custom names in one call, defaults in the next, on the same object: a call must not change what later calls return."""
+    custom = (est.grid(shape=(3, 4), dims=["latitude", "longitude"], data_names=["value"]),
+              est.profile(a["p1"], a["p2"], 5, dims=("y", "x"), data_names="value"),
+              est.scatter(size=6, random_state=seed, dims=["lat", "lon"], data_names=["value"]))
+    default = (est.grid(shape=(3, 4)), est.profile(a["p1"], a["p2"], 5), est.scatter(size=6, random_state=seed))
+    names = [list(default[0].dims), list(default[1].columns), list(default[2].columns)]
+    return custom, default, names
 
 
 def _profile_scatter_score(est, a, seed):
@@ -390,6 +458,19 @@ def run_case(run, tap, stream, index, rng):
                     continue
                 if third != first:
                     run.violation("readonly", "%s: result differs for read-only arguments" % name, {"spec": name, "args": args_backup}, key="readonly-diff:" + name)
+                # returned arrays belong to the caller: editing them in place must not change what the next identical call returns
+                live = copy.deepcopy(args_backup)
+                try:
+                    res_obj = call(live)
+                    edited = _scribble_on_result(res_obj, live)
+                except Exception:  # noqa: BLE001
+                    edited = 0
+                if edited:
+                    again = _outcome(call, live)
+                    run.evaluated("result_ownership")
+                    if again != first:
+                        run.violation("result_ownership", "%s: after the caller modified the returned arrays in place, an identical call returns something else (a returned array is shared with internal state)" % name,
+                                      {"spec": name, "args": args_backup}, key="result-alias:" + name)
                 # history-freedom of plain calls: call, change the SAME array objects in place, call again - the second result must be
                 # what a first call on fresh copies of the changed arrays returns (nothing may be remembered across calls)
                 args_live = copy.deepcopy(args_backup)
@@ -426,7 +507,14 @@ def run_case(run, tap, stream, index, rng):
                     run.count("history:" + name)
                     run.mark_nontrivial("history", name, [np.shape(s[0][0]) for s in sets], query)
                     got, want = est.predict(query), fresh.predict(query)
-                    if core.digest(got) != core.digest(want):
+                    got = (got, [float(v) for v in est.region_], est.grid(shape=(3, 4)))
+                    want = (want, [float(v) for v in fresh.region_], fresh.grid(shape=(3, 4)))
+                    last = sets[-1][0]
+                    bbox = [float(np.min(last[0])), float(np.max(last[0])), float(np.min(last[1])), float(np.max(last[1]))]
+                    if [float(v) for v in est.region_] != bbox:
+                        run.violation("history", "%s: after %d fits region_ is not the bounding box of the data of the latest fit" % (name, nsets),
+                                      {"estimator": name, "region_": [float(v) for v in est.region_], "bounding_box_of_last_data": bbox}, key="history-region:" + name)
+                    if core.digest(_strip_repr(got)) != core.digest(_strip_repr(want)):
                         run.violation("history", "%s refitted on %d datasets predicts differently from a fresh estimator fitted to the last one" % (name, nsets),
                                       {"estimator": name, "dataset_shapes": [np.shape(s[0][0]) for s in sets], "refitted": got, "fresh": want, "query": query},
                                       key="history:" + name)
